@@ -306,8 +306,25 @@ def r5_r6(ctx, prog):
     ini = prog.fn1(TE + '::initialize')
     dt = [f_ for f_ in prog.methods_of(TE) if f_.d.get('dtor')]
     def always_disables(g):
+        # every path passes disable(), except paths on which the timer is known not to be enabled (there disable() would do nothing)
         ds = q.calls(g, callee=TE + '::disable')
-        return bool(ds) and not g.cfg.exists_path(g.cfg.entry_point(), 'exit', avoid=q.pts(g, ds), src_inclusive=True)
+        if not ds:
+            return False
+        exits = [q.pt_or_term(g, r) for r in q.returns(g)] or ['exit']
+        for ep in exits:
+            if ep is None or not g.cfg.exists_path(g.cfg.entry_point(), ep, avoid=q.pts(g, ds), src_inclusive=True):
+                continue
+            known_off = False
+            if ep != 'exit':
+                for cond, k, b in q.guards_incl_flags(g, ep):
+                    for l, o, r in q.edge_rels(g, cond, k):
+                        if (l.endswith('is_enabled_') or l.endswith('isEnabled()')) and ((o == '==' and r in ('0', 'false')) or (o == '!=' and r in ('1', 'true'))):
+                            known_off = True
+            if not known_off:
+                return False
+        if not q.returns(g) and g.cfg.exists_path(g.cfg.entry_point(), 'exit', avoid=q.pts(g, ds), src_inclusive=True):
+            return False
+        return True
     ok = always_disables(ini) and bool(dt) and always_disables(dt[0])
     ctx.ob('C02.R6', TE + '|disable-on-reinit-and-destroy', ok, 'every path through initialize() and through the destructor disables the timer' if ok else
            'a path through %s leaves without disable(): a timer that is still armed keeps its old deadline — it fires although it was re-initialised and not enabled, '
